@@ -860,6 +860,10 @@ def ops_equal(a, b, rtol, atol=1e-12):
     if len(a) != len(b):
         return False
     types = OP_ATOL['types']
+    # cardinal-point positions (F1, F2, EPL, XPL ...) are differences of lengths of the size of the focal length:
+    # on a nearly afocal lens (f ~ 3e4 mm) a rounding-level difference of the compensated thickness shows as 1e-11
+    scale = max([abs(v) for v in list(a) + list(b) if isinstance(v, float) and math.isfinite(v)] + [1.0])
+    atol = max(atol, 1e-15 * scale)
     for i, (x, y) in enumerate(zip(a, b)):
         if isinstance(x, tuple) or isinstance(y, tuple):
             return False
